@@ -2371,6 +2371,42 @@ func repoResolveHandler(c web.C, w http.ResponseWriter, r *http.Request) {
 		newParents[i] = dvid.NilUUID
 	}
 
+	// Check everything that can make this request fail before any node is created to hold
+	// deletions: a refused request must leave the DAG as it was.
+	for _, name := range jsonData.Data {
+		if _, err := datastore.GetDataByUUIDName(uuid, name); err != nil {
+			BadRequest(w, r, err)
+			return
+		}
+	}
+	firstRoot, err := datastore.GetRepoRoot(oldParents[0])
+	if err != nil {
+		BadRequest(w, r, err)
+		return
+	}
+	for i, parent := range oldParents {
+		locked, err := datastore.LockedUUID(parent)
+		if err != nil {
+			BadRequest(w, r, err)
+			return
+		}
+		if !locked {
+			BadRequest(w, r, "parent %s must be committed before it can be merged", parent)
+			return
+		}
+		root, err := datastore.GetRepoRoot(parent)
+		if err != nil || root != firstRoot {
+			BadRequest(w, r, "parent %s is not in the same repo as parent %s", parent, oldParents[0])
+			return
+		}
+		for j := 0; j < i; j++ {
+			if oldParents[j] == parent {
+				BadRequest(w, r, "parent %s is listed more than once", parent)
+				return
+			}
+		}
+	}
+
 	// Iterate through all k/v for given data instances, making sure we find any conflicts.
 	// If any are found, remove them with first UUIDs taking priority.
 	for _, name := range jsonData.Data {
